@@ -542,9 +542,12 @@ func signature(d *Decl, v verdict) string {
 		e := d.E
 		isShift := e.K == "bin" && (e.Op == "<<" || e.Op == ">>")
 		switch {
-		case v.kind == "fault" && hasComplex(e):
-			// the complex operations ignore the errors of the operations on the parts
-			return "complex-overflow-fault"
+		case v.kind == "rejects:bigoverflow" && e.K == "bin" && opGroup(e.Op) != "cmp" && (goClass(e.X) == "uc" || goClass(e.Y) == "uc"):
+			// an integer part of a complex operation exceeds 512 bits: Scriggo
+			// returns the overflow error of the part operation (before fix
+			// df0b361 it panicked), go/types does not bound the parts of a
+			// complex constant
+			return "complex-int-part-over-512-bits"
 		case v.kind == "rejects:invalidop" && isShift && (goClass(e.Y) == "tf" || goClass(e.Y) == "tc"):
 			// go/types accepts a typed float constant count, the spec and Scriggo do not
 			return "shift-count-typed-float"
@@ -861,6 +864,11 @@ var corpus = []string{
 	"const C = \"a\" + \"b\" < \"b\"",
 	"const C = 1 << 3.0",
 	"const C = -1 >> 70",
+	// regressions of fix df0b361 (these made Build panic); what is left of them
+	// is the known finding complex-int-part-over-512-bits
+	"const C = (1<<511 + 0i) * (1<<511 + 0i)",
+	"const C = 1e3i / ((1 << 256) + 1)",
+	"const C = (1<<300 + 1i) * (1<<300 - 1i)",
 }
 
 // oracleDefect recognises the one input class on which go/constant itself is
